@@ -73,11 +73,60 @@ def run_job(job_id, rlimit=3_000_000):
     return out
 
 
-def run_jobs(job_ids, procs=None, rlimit=3_000_000):
+JOB_TIMEOUT_S = int(os.environ.get("VF_JOB_TIMEOUT", "900"))
+
+
+def _child(job_id, rlimit, conn):
+    try:
+        conn.send(run_job(job_id, rlimit))
+    except BaseException as e:      # noqa
+        conn.send({"job": job_id, "functions": [], "obligations": [], "error": f"{type(e).__name__}: {e}", "stats": {}, "wall_s": 0})
+    finally:
+        conn.close()
+
+
+def run_jobs(job_ids, procs=None, rlimit=3_000_000, timeout=None):
+    """one forked process per job (the parent holds the imported library, so a fork costs milliseconds), at most `procs` at a time,
+    each under a wall-clock limit: the solver's resource limit is deterministic but a rare query has been seen to spin past it.
+    A job that does not come back is killed and retried once; if it fails again its verdict is `timeout` (reported as UNDECIDED
+    by vf.check, never as a violation, and never silently dropped)."""
     import multiprocessing as mp
+    timeout = timeout or JOB_TIMEOUT_S
     procs = procs or min(16, max(1, len(job_ids)))
     if procs == 1 or len(job_ids) == 1:
         return [run_job(j, rlimit) for j in job_ids]
+    _init()
     ctx = mp.get_context("fork")
-    with ctx.Pool(procs) as pool:
-        return pool.starmap(run_job, [(j, rlimit) for j in job_ids], chunksize=1)
+    pending = [(j, 0) for j in job_ids]
+    running, results = [], {}
+    while pending or running:
+        while pending and len(running) < procs:
+            j, attempt = pending.pop(0)
+            rx, tx = ctx.Pipe(duplex=False)
+            pr = ctx.Process(target=_child, args=(j, rlimit, tx), daemon=True)
+            pr.start(); tx.close()
+            running.append([j, attempt, pr, rx, time.time()])
+        still = []
+        for item in running:
+            j, attempt, pr, rx, t0 = item
+            if rx.poll(0.005):
+                try: results[j] = rx.recv()
+                except EOFError: results[j] = {"job": j, "functions": [], "obligations": [], "error": "worker died without a result", "stats": {}, "wall_s": 0}
+                pr.join(1); rx.close()
+            elif not pr.is_alive():
+                if rx.poll(0.2):
+                    results[j] = rx.recv()
+                else:
+                    results[j] = {"job": j, "functions": [], "obligations": [], "error": f"worker exited with code {pr.exitcode}", "stats": {}, "wall_s": 0}
+                rx.close()
+            elif time.time() - t0 > timeout:
+                pr.terminate(); pr.join(2)
+                if pr.is_alive(): pr.kill()
+                rx.close()
+                if attempt == 0: pending.append((j, 1))
+                else: results[j] = {"job": j, "functions": [], "obligations": [], "error": None, "timeout": timeout, "stats": {}, "wall_s": timeout}
+            else:
+                still.append(item)
+        running = still
+        if running and not pending: time.sleep(0.01)
+    return [results[j] for j in job_ids]
